@@ -7,7 +7,7 @@ use std::sync::Arc;
 pub const ITEM_NAMES: &[&str] = &[
     "Alpha", "Bravo", "Charlie", "Delta", "Echo", "Foxtrot", "Golf", "Hotel", "India", "Juliet", "Kilo", "Lima", "Mike", "November",
     "Oscar", "Papa", "Quebec", "Romeo", "Sierra", "Tango", "Uniform", "Victor", "Whiskey", "Xray", "Yankee", "Zulu", "HttpRequest",
-    "IdCard", "Item2", "UserProfile",
+    "IdCard", "Item2", "UserProfile", "AccountId", "RawHttp",
 ];
 pub const VARIANT_NAMES: &[&str] =
     &["First", "Second", "Third", "WithData", "Http2Frame", "V2", "A", "Empty", "SomeLongVariantName", "Node", "Leaf", "Ok2", "Default", "Case"];
